@@ -1,0 +1,19 @@
+//go:build verif
+
+package hashring
+
+// VerifDump exposes the ring's internal state (read-only) to the /verif
+// correspondence harness. Compiled only with -tags verif.
+func (r *Ring[V]) VerifDump() (sorted bool, members []string, deleted []string, hashes []uint64, keys []string) {
+	for k := range r.members {
+		members = append(members, k)
+	}
+	for k := range r.deletedKeys {
+		deleted = append(deleted, k)
+	}
+	for _, e := range r.entries {
+		hashes = append(hashes, e.hash)
+		keys = append(keys, e.key)
+	}
+	return r.sorted, members, deleted, hashes, keys
+}
